@@ -79,6 +79,11 @@ func (m *CPU) Run(app risc.Application) (int, error) {
 		m.writeUnit.cycle(m.ctx, m.writeBus)
 
 		if ret {
+			// Complete the write-backs of the instructions preceding the return
+			for !m.writeUnit.isEmpty() || !m.writeBus.IsEmpty() {
+				m.ctx.VerifTick()
+				m.writeUnit.cycle(m.ctx, m.writeBus)
+			}
 			break
 		}
 		if flush {
